@@ -3,6 +3,7 @@ from vlib import run_pair
 
 PID = "C17"
 MODEL_VOS = ["base/Bits64.vo", "model/LowEntropy.vo"]
+USES_TRANSLATED = True     # props/C17.v has theorems over gen/Translated.v: a translator failure is a problem of this check
 ASSUMPTIONS = [
     "the BMI2 PDEPQ/PEXTQ instructions (pkg/mathext/bit_amd64.s) are outside the proof: they are only compared with the portable loops and with the Intel definition on the sampled (x, mask) pairs (quick ~20k, thorough >= 10^6) on the CPU this check runs on (report note 'bmi2' says whether that path was present)",
     "math/bits.RotateLeft64, math/bits.OnesCount32 and encoding/binary big-endian load/store are modelled by their specification (rotl64, popcount, be_val/be_bytes) and compared with the Go code on every case",
